@@ -25,6 +25,8 @@ def gen_case(rng, tier, ks=None):
         ks = rng.choice([1, 1, 2])
     d = rng.choice([b"", b"", b"d", b"\x00" * 32])
     key = bytes(rng.randrange(256) for _ in range(ks))
+    if rng.random() < 0.2:
+        key = rng.choice([b"\x00" * ks, b"\xff" * ks])      # extreme paths (leading zero bytes vanish in the integer form)
     prior = []
     for _ in range(rng.randint(0, 3)):
         k = key if rng.random() < 0.3 else bytes(rng.randrange(256) for _ in range(ks))
